@@ -327,3 +327,120 @@ fn sampled_key_order_transitive() {
     if a.cmp(&b) != Ordering::Less && b.cmp(&c) != Ordering::Less { assert!(a.cmp(&c) != Ordering::Less); }
 }
 
+
+// ---------------------------------------------------------------------------------------------
+// The eviction sampler against the contract the Verus unit `policy` ASSUMES for it (C06).
+// std BinaryHeap / HashSet are bound to the stand-ins of crate::verif_stubs (instrumentation X3).
+// ---------------------------------------------------------------------------------------------
+fn est_of(hash: u64) -> u8 { (hash % 17) as u8 }       // an arbitrary estimate function of the hash (hashes are symbolic)
+
+/// the sample as a list of its SampledKeys (stand-in heap slots)
+#[cfg(kani)]
+fn sample_items<'a, F: Fn(u64) -> u8>(s: &super::FrequencyCounterBasedMinHeapSamples<'a, u64, F>) -> [Option<SampledKey>; 6] { *s.sample.verif_slots() }
+
+#[cfg(kani)]
+fn check_sample_describes<'a, const N: usize, F: Fn(u64) -> u8>(s: &super::FrequencyCounterBasedMinHeapSamples<'a, u64, F>, cw: &CacheWeight<u64>, limit: usize) {
+    let items = sample_items(s);
+    let mut count = 0;
+    let mut i = 0;
+    while i < 6 {
+        if let Some(k) = items[i] {
+            count += 1;
+            // describes a resident: its charged weight, the estimate of ITS hash
+            let r = cw.key_weights.get(&k.id);
+            assert!(r.is_some());
+            let r = r.unwrap();
+            assert!(k.weight == r.weight && k.estimated_frequency == est_of(r.key_hash));
+            assert!(s.current_sample_key_ids.contains(&k.id));
+            // ids are unique in the sample
+            let mut j = 0;
+            while j < i { if let Some(o) = items[j] { assert!(o.id != k.id); } j += 1; }
+        }
+        i += 1;
+    }
+    assert!(count == s.size() && count <= limit);
+    assert!(s.current_sample_key_ids.len() == count);
+}
+
+#[cfg(kani)]
+fn t_sampler_initial<const N: usize>() {
+    let (cw, m) = arbitrary::<N>();
+    let size: usize = kani::any();
+    kani::assume(size == 1 || size == 2 || size == 5);
+    let s = cw.sample(size, est_of);
+    check_sample_describes::<N, _>(&s, &cw, size);
+    assert!(s.size() == if m.n < size { m.n } else { size });       // min(size, residents): "samples smaller than five"
+    check_matches(&cw, &m);                                          // sampling changes nothing
+    kani::cover!(m.n > size, "more residents than the sample size");
+    kani::cover!(m.n < size && m.n > 0, "sample smaller than its size");
+}
+
+#[cfg(kani)]
+fn t_sampler_pop<const N: usize>() {
+    let (cw, m) = arbitrary::<N>();
+    let mut s = cw.sample(5, est_of);
+    let before = sample_items(&s);
+    let r = s.min_frequency_key();
+    assert!(r.is_some() == (m.n > 0));
+    if let Some(k) = r {
+        // it was in the sample, and no sampled key comes before it: lowest estimate first, ties: heaviest first
+        let mut found = false;
+        let mut i = 0;
+        while i < 6 {
+            if let Some(x) = before[i] {
+                if x.id == k.id { found = true; assert!(x.weight == k.weight && x.estimated_frequency == k.estimated_frequency); }
+                assert!(k.estimated_frequency < x.estimated_frequency || (k.estimated_frequency == x.estimated_frequency && k.weight >= x.weight));
+            }
+            i += 1;
+        }
+        assert!(found);
+        // and it left the sample (heap and id set)
+        assert!(!s.current_sample_key_ids.contains(&k.id));
+        assert!(s.size() == m.n - 1);
+        let after = sample_items(&s);
+        let mut i = 0;
+        while i < 6 { if let Some(x) = after[i] { assert!(x.id != k.id); } i += 1; }
+    }
+    check_sample_describes::<N, _>(&s, &cw, 5);
+    check_matches(&cw, &m);
+}
+
+#[cfg(kani)]
+fn t_sampler_fill_in<const N: usize>() {
+    // sample size 1 over up to N residents: pop the sampled key, evict it, refill from the current residents
+    let (cw, m) = arbitrary::<N>();
+    let mut s = cw.sample(1, est_of);
+    let r = s.min_frequency_key();
+    if let Some(k) = r {
+        if kani::any() { cw.delete(&k.id, &|_key: u64| {}); }        // evicted, or (vanished concurrently / kept) not
+        let still_there = cw.contains(&k.id);
+        let filled = s.maybe_fill_in();
+        check_sample_describes::<N, _>(&s, &cw, 1);
+        // fills in exactly when some resident is not in the sample
+        assert!(filled == (s.size() == 1));
+        assert!((s.size() == 1) == (cw.key_weights.len() > 0));
+        let _ = still_there;
+    } else {
+        assert!(m.n == 0);
+        assert!(!s.maybe_fill_in());
+        assert!(s.size() == 0);
+    }
+    kani::cover!(m.n == N, "full pre-state");
+}
+
+#[cfg(kani)]
+fn t_sampler_no_duplicate_fill<const N: usize>() {
+    // a sample that already holds every resident is not refilled and never holds an id twice
+    let (cw, m) = arbitrary::<N>();
+    let mut s = cw.sample(5, est_of);
+    let filled = s.maybe_fill_in();
+    assert!(!filled && s.size() == m.n);
+    check_sample_describes::<N, _>(&s, &cw, 5);
+}
+
+verif_harness! { #[kani::unwind(7)] fn sampler_initial_n3() { t_sampler_initial::<3>() } }
+verif_harness! { #[kani::unwind(7)] fn sampler_pop_n2() { t_sampler_pop::<2>() } }
+verif_harness! { #[kani::unwind(7)] fn sampler_pop_n3() { t_sampler_pop::<3>() } }
+verif_harness! { #[kani::unwind(7)] fn sampler_fill_in_n2() { t_sampler_fill_in::<2>() } }
+verif_harness! { #[kani::unwind(7)] fn sampler_fill_in_n3() { t_sampler_fill_in::<3>() } }
+verif_harness! { #[kani::unwind(7)] fn sampler_no_duplicate_fill_n2() { t_sampler_no_duplicate_fill::<2>() } }
